@@ -40,7 +40,8 @@ L == INSTANCE RetryLoop WITH
         BFaults <- IF Is("bsleep") THEN {Cur.fault} ELSE {},
         Ras   <- {},
         Modes <- IF Is("deliver") THEN {Cur.mode} ELSE {},
-        NRuns <- NDeliver(tid)
+        NRuns <- NDeliver(tid),
+        RunGaps <- IF Is("deliver") THEN {Cur.gap} ELSE {}
 
 Init == /\ tid \in 1..NTraces
         /\ l = 1
